@@ -1387,7 +1387,9 @@ class TOTP:
 
         # parse query params
         params = dict(label=label)
-        for k, v in parse_qsl(result.query):
+        # NOTE: blank values are kept, so that a parameter given twice is noticed
+        #       even if one of the two occurrences is empty.
+        for k, v in parse_qsl(result.query, keep_blank_values=True):
             if k in params:
                 raise cls._uri_parse_error(f"duplicate parameter ({k!r})")
             if k == "cls":
